@@ -1,7 +1,7 @@
 (* Properties/C12.v — Data() recovers the values the kernel encoded. *)
 From Coq Require Import List Ascii String NArith ZArith Bool Arith.
 Import ListNotations.
-Require Import KV Trim Header Parser ParseProofs.
+Require Import KV Trim Header Parser ParseProofs ParseBody.
 Require Hex.
 
 (* unsafe strings travel as upper-case hex: decoding gives back every byte string *)
@@ -13,6 +13,18 @@ Proof. exact Hex.decode_hex_roundtrip. Qed.
 Theorem C12_quoted_field_tokenised : forall k v rest, k <> [] -> forallb is_key k = true -> safe_body v = true ->
   match_here (k ++ ascii_of_nat 61 :: dq :: v ++ dq :: rest) = Some (k, dq :: v ++ [dq], rest).
 Proof. exact match_here_quoted. Qed.
+
+(* a whole body written the way the kernel writes it - fields key=value separated by one blank, each
+   value in double quotes or one plain token (number, upper-case hex, name) - is cut into exactly
+   those fields, in order: nothing is merged, split or skipped *)
+Theorem C12_body_tokenised : forall fs, Forall field_ok fs ->
+  kv_find_all (body fs) = map (fun f => (fst f, text_of (snd f))) fs.
+Proof. exact body_tokenised. Qed.
+(* and the key/value extraction (before the per-type enrichment) maps every key to the value that was
+   written, quotes removed: keys pairwise different, no nested msg=, no placeholder value *)
+Theorem C12_fields_extracted : forall d fs, Forall field_ok fs -> Forall ordinary fs -> NoDup (map fst fs) ->
+  forall f, In f fs -> kv_get (fst f) (extract (S d) (body fs) []) = Some (text_of (snd f), value_of (snd f)).
+Proof. exact extract_body. Qed.
 
 (* non-vacuity, and the whole Data() pipeline on one record of each decoded kind *)
 Example C12_example_execve :
@@ -26,3 +38,5 @@ Proof. vm_compute. reflexivity. Qed.
 
 Print Assumptions C12_hex_roundtrip.
 Print Assumptions C12_quoted_field_tokenised.
+Print Assumptions C12_body_tokenised.
+Print Assumptions C12_fields_extracted.
